@@ -24,8 +24,6 @@ int main(int argc, char **argv) {
     if (!face) { printf("NOFACE\n"); return 2; }
     const Silf &silf = *face->chooseSilf(0);
     const char *txt = "a";
-    gr_segment *gseg = gr_make_seg(0, face, 0, 0, gr_utf8, txt, 1, 0);
-    Segment &seg = *static_cast<Segment *>(gseg);
     std::string line;
     while (std::getline(std::cin, line)) {
         std::vector<std::string> f = split_ws(line);
@@ -41,19 +39,22 @@ int main(int argc, char **argv) {
                 if (bc.empty() || (prog.status() == Machine::Code::loaded)) printf("%s L empty\n", id.c_str());
                 else printf("%s L %s\n", id.c_str(), lmsg[prog.status()]);
             } else {
+                // a segment of its own for every program: arbitrary byte strings may hold slot opcodes (DELETE, INSERT ...) that edit it
+                gr_segment *gseg = gr_make_seg(0, face, 0, 0, gr_utf8, txt, 1, 0);
+                Segment &seg = *static_cast<Segment *>(gseg);
                 SlotMap smap(seg, 0, 0);
                 Machine m(smap);
                 smap.pushSlot(seg.first());
                 slotref *map = smap.begin();
                 int32 ret = prog.run(m, map);
                 printf("%s R %s %d\n", id.c_str(), rmsg[m.status()], ret);
+                gr_seg_destroy(gseg);
             }
         }
         free(p);
         fflush(stdout);
         case_end();
     }
-    gr_seg_destroy(gseg);
     gr_face_destroy(face);
     return 0;
 }
